@@ -128,6 +128,13 @@ impl LocalSpanStack {
         }
     }
 
+    /// Whether the current span line exists and records (i.e. is sampled).
+    #[inline]
+    pub fn is_recording(&mut self) -> bool {
+        self.current_span_line()
+            .is_some_and(|span_line| span_line.is_sampled())
+    }
+
     pub fn current_collect_token(&mut self) -> Option<CollectToken> {
         let span_line = self.current_span_line()?;
         span_line.current_collect_token()
